@@ -4,7 +4,7 @@ import math
 
 import numpy as np
 
-from .. import cases, cmp, corpus, gen, sim, expect
+from .. import cases, cmp, corpus, gen, sim, expect, w4
 from ..harness import CaseResult
 from ..probe import read
 
@@ -91,20 +91,22 @@ REQUIRED_REACH = ["fraction", "population_counts", "population_counts_moe", "lin
                   "class:no_date", "class:strand_date"] + [
                       "class:shape=%s" % s[0] for s in SHAPES]
 BATCH = 40
-RULE = RULE + corpus.RULE_SUFFIX
-REQUIRED_REACH = list(REQUIRED_REACH) + ["class:corpus"]
+RULE = RULE + corpus.RULE_SUFFIX + w4.RULE_SUFFIX
+REQUIRED_REACH = list(REQUIRED_REACH) + ["class:corpus", "class:w4"]
 TECHNIQUE = TECHNIQUE + corpus.TECHNIQUE_SUFFIX
 
 
 def units(tier, seed):
     n = 24 * 25 if tier == "quick" else 20000
     # W1 synthetic surveys, then W3: the fixture corpus under the intrinsic relations
-    return [{"i": i, "seed": seed} for i in range(n)] + corpus.units(tier, seed)
+    return [{"i": i, "seed": seed} for i in range(n)] + corpus.units(tier, seed) + w4.units(tier, seed)
 
 
 def make_case(unit):
     if "corpus" in unit:
         return corpus.make_case(ID, unit)
+    if "w4" in unit:
+        return w4.make_case(ID, unit)
     i = unit["i"]
     g = gen.G("C17/%s/%s" % (unit["seed"], i))
     shape = SHAPES[i % len(SHAPES)]
@@ -142,6 +144,8 @@ def make_case(unit):
 def check_case(case):
     if "fixture" in case:
         return corpus.check_case(ID, case)
+    if case.get("w4"):
+        return w4.check_case(ID, case)
     res = CaseResult()
     shape = [s for s in SHAPES if s[0] == case["shape"]][0]
     res.classes.append("shape=%s" % shape[0])
